@@ -25,10 +25,10 @@ def sdiv(numerator, denominator):
     :return: Array
     """
 
-    if np.isscalar(numerator):
-        return np.divide(numerator, denominator, out=np.zeros_like(denominator, dtype=float), where=numerator != 0)
-    else:
-        return np.divide(numerator, denominator, out=np.zeros_like(numerator, dtype=float), where=numerator != 0)
+    # Broadcast first, so that any mix of scalars, 0-d arrays (e.g. the result of a previous scalar division) and arrays is supported
+    numerator, denominator = np.broadcast_arrays(np.asarray(numerator, dtype=float), np.asarray(denominator, dtype=float))
+    result = np.divide(numerator, denominator, out=np.zeros(numerator.shape), where=numerator != 0)
+    return result if result.ndim else result[()]
 
 
 def vector_min(*args):
